@@ -16,7 +16,7 @@ def peersOf (fam : Fam) (l : List Bytes) : List Peer :=
 
 def logicOf (l : Line) : Except String Logic := do
   let kind := l.get "logic"
-  let mkErr : ErrClass := if kind == "client" then .client "injected client error" else .internal "injected"
+  let mkErr : ErrClass := if kind == "client" || kind == "wrapped" then .client "injected client error" else .internal "injected"
   if kind == "ok" then
     let interval ← l.int "interval"
     let complete ← l.nat "complete"
